@@ -111,13 +111,25 @@ func runC02(c *Ctx) {
 	// (2) pass-through
 	if rp := c.MustFunc(pkgCodec + ":(*Decoder).readPayload"); rp != nil {
 		var claimed ssa.Value
-		eachInstr(rp, func(in ssa.Instruction) {
-			if ex, ok := in.(*ssa.Extract); ok && ex.Index == 0 {
-				if cl, ok := ex.Tuple.(*ssa.Call); ok && strings.HasSuffix(calleeName(&cl.Call), "util.ReadVarIntReturnN") {
-					claimed = ex
+		// the claimed-size read happens in readPayload or in an unexported helper it hands the frame to
+		for _, f := range deepFuncs(rp, 1) {
+			f := f
+			eachInstr(f, func(in ssa.Instruction) {
+				if ex, ok := in.(*ssa.Extract); ok && ex.Index == 0 {
+					if cl, ok := ex.Tuple.(*ssa.Call); ok && strings.HasSuffix(calleeName(&cl.Call), "util.ReadVarIntReturnN") {
+						// not the frame-length read: this one reads from a buffer over the frame
+						if derivesFrom(cl.Call.Args[0], 3, func(x ssa.Value) bool {
+							c2, isC := x.(*ssa.Call)
+							return isC && calleeName(&c2.Call) == "bytes.NewBuffer"
+						}) {
+							claimed = ex
+							rp = f
+							c.Analysed(f)
+						}
+					}
 				}
-			}
-		})
+			})
+		}
 		if claimed == nil {
 			c.Undecided("claimed-zero-exactly", "readPayload", "claimed size read not found")
 		} else {
@@ -206,6 +218,54 @@ func runC02(c *Ctx) {
 							}
 						}
 						okHi = good
+					} else if hc := callValue(s.Other); hc != nil && hc.Call.StaticCallee() != nil && hc.Call.StaticCallee().Blocks != nil {
+						// cap chosen by a helper: every return is one of the two constants, the 2 MiB one
+						// only... and the 8 MiB one never on the direction == ServerBound side
+						hf := hc.Call.StaticCallee()
+						c.Analysed(hf)
+						isSB := func(wantTruth bool) func(e Edge, cond ssa.Value, truth bool) bool {
+							return func(e Edge, cond ssa.Value, truth bool) bool {
+								bo, ok := cond.(*ssa.BinOp)
+								if !ok || !strings.HasSuffix(PathOf(bo.X), ".direction") {
+									return false
+								}
+								k2, ok2 := constInt(bo.Y)
+								if !ok2 || k2 != sb {
+									return false
+								}
+								switch bo.Op {
+								case token.EQL:
+									return truth == wantTruth
+								case token.NEQ:
+									return truth != wantTruth
+								}
+								return false
+							}
+						}
+						good, nret := true, 0
+						for _, hr := range returnsOf(hf) {
+							if hr.Block() == hf.Recover || len(hr.Results) != 1 {
+								continue
+							}
+							nret++
+							k, isK := constInt(retVal(hr, 0))
+							switch {
+							case isK && k == specSB:
+								if g, ns := MustCross(hr, isSB(true)); !g || ns == 0 {
+									good = false
+									detail += fmt.Sprintf(" (%s: 2 MiB cap not tied to direction == ServerBound)", hf.Name())
+								}
+							case isK && k == specCB:
+								if g, ns := MustCross(hr, isSB(false)); !g || ns == 0 {
+									good = false
+									detail += fmt.Sprintf(" (%s returns the 8 MiB cap without excluding direction == ServerBound)", hf.Name())
+								}
+							default:
+								good = false
+								detail += fmt.Sprintf(" (%s returns a cap that is neither 2 MiB nor 8 MiB)", hf.Name())
+							}
+						}
+						okHi = good && nret > 0
 					} else if k, isK := constInt(s.Other); isK && k <= specSB {
 						okHi = true
 					}
@@ -296,7 +356,13 @@ func runC02(c *Ctx) {
 	// (5) VarInt loops
 	if rv := c.MustFunc(pkgUtil + ":ReadVarIntReturnN"); rv != nil {
 		loops := 0
-		for _, b := range rv.Blocks {
+		var lblocks []*ssa.BasicBlock
+		for _, f := range deepFuncs(rv, 1) {
+			c.Analysed(f)
+			lblocks = append(lblocks, f.Blocks...)
+		}
+		for _, b := range lblocks {
+			rv := b.Parent()
 			// loop header: has a predecessor it dominates (back edge)
 			isHdr := false
 			for _, p := range b.Preds {
@@ -440,12 +506,14 @@ func runC01(c *Ctx) {
 		}
 		// decoder
 		var decUnc, decCmp token.Token
-		for _, r := range returnsOf(rp) {
-			if cl := callValue(retVal(r, 0)); cl != nil && methodName(&cl.Call) == "Bytes" {
-				rg := RangeAt(r.Block(), func(v ssa.Value) bool { cl := callValue(v); return cl != nil && methodName(&cl.Call) == "Len" })
-				for _, s := range rg.Sym {
-					if isThr(s.Other) {
-						decUnc = s.Op
+		for _, rpf := range deepFuncs(rp, 1) {
+			for _, r := range returnsOf(rpf) {
+				if cl := callValue(retVal(r, 0)); cl != nil && methodName(&cl.Call) == "Bytes" {
+					rg := RangeAt(r.Block(), func(v ssa.Value) bool { cl := callValue(v); return cl != nil && methodName(&cl.Call) == "Len" })
+					for _, s := range rg.Sym {
+						if isThr(s.Other) {
+							decUnc = s.Op
+						}
 					}
 				}
 			}
